@@ -30,7 +30,7 @@ var (
 	uris        = []string{"urn:a", "urn:b", "http://x.y/z"}
 	prefixes    = []string{"p", "q", "r"}
 	attrLocals  = []string{"id", "k", "n", "v"}
-	piTargets   = []string{"pi", "xsl", "t-1"}
+	piTargets   = []string{"pi", "xsl", "t-1", "xml-stylesheet", "xmlfoo"}
 	langTags    = []string{"en", "en-GB", "en-US", "de", "zh", "zh-TW", "zh-Hant", "zh-Hant-TW", "EN", "fr-CA", "x-private", "sr-Latn-RS", "", "e", "eng", "de-CH-1901"}
 )
 
@@ -309,4 +309,38 @@ func Generate(r *rng.R, o GenOpts) *Doc {
 	// nothing to do — expanded names are primary; serialisers invent prefixes.
 	g.d.Finish()
 	return g.d
+}
+
+
+// NSQuirks adds namespace-declaration patterns a scripted parser (or unusual
+// XML) can produce: a prefix declared twice on one element with other
+// declarations in between, overrides of inherited prefixes, and (when undeclare
+// is set) undeclaration of the default namespace. Call before Finish.
+func NSQuirks(r *rng.R, d *Doc, undeclare bool) {
+	var walk func(n *Node, inherited []Decl)
+	walk = func(n *Node, inherited []Decl) {
+		if n.Kind == Elem {
+			if len(n.Decls) > 0 && r.P(25) {
+				dup := n.Decls[r.Intn(len(n.Decls))]
+				if dup.URI != "" {
+					dup.URI += "/again"
+					n.Decls = append(n.Decls, Decl{rng.Pick(r, []string{"zz", "yy"}), "urn:between"}, dup)
+				}
+			}
+			if len(inherited) > 0 && r.P(15) {
+				in := rng.Pick(r, inherited)
+				if in.URI != "" {
+					n.Decls = append(n.Decls, Decl{in.Prefix, in.URI + "/o"})
+				}
+			}
+			if undeclare && r.P(10) {
+				n.Decls = append(n.Decls, Decl{"", ""})
+			}
+			inherited = append(append([]Decl{}, inherited...), n.Decls...)
+		}
+		for _, c := range n.Children {
+			walk(c, inherited)
+		}
+	}
+	walk(d.Root, nil)
 }
